@@ -15,8 +15,8 @@ def main():
     props = ["C%02d" % i for i in range(1, 20)]
     outp = os.path.join(HERE, "seeded", "MATRIX.json")
     matrix = json.load(open(outp)) if os.path.exists(outp) else {}
-    work = "/tmp/sweep-repo"
-    for sid in (["unchanged"] if "--fast" not in sys.argv and "--own" not in sys.argv else []) + ids:
+    work = "/tmp/sweep-repo-%d" % os.getpid()
+    for sid in (["unchanged"] if "--fast" not in sys.argv and "--own" not in sys.argv and "--own-all" not in sys.argv else []) + ids:
         shutil.rmtree(work, ignore_errors=True)
         shutil.copytree(SRC_REPO, work, ignore=shutil.ignore_patterns("target", ".git"))
         if sid != "unchanged":
@@ -24,7 +24,7 @@ def main():
             if r.returncode != 0:
                 print(sid, "patch failed", r.stdout[-300:], r.stderr[-300:], flush=True)
                 continue
-        row = matrix.get(sid, {}) if "--own" in sys.argv else {}
+        row = matrix.get(sid, {}) if ("--own" in sys.argv or "--own-all" in sys.argv) else {}
         selected = list(props)
         if sid != "unchanged" and "--full" not in sys.argv:
             # the four slow checks (C01, C17, C18, C19) only where they are aimed at or related
@@ -36,7 +36,10 @@ def main():
             if "py/jsonlogic_rs" in patch or "python_iface" in patch:
                 want.add("C19")
             selected = [p for p in props if p not in ("C01", "C17", "C18", "C19") or p in want]
-            if "--own" in sys.argv:
+            if "--own-all" in sys.argv:
+                # first look at a new round: the check of the property the change breaks (slow ones included) and the related ones
+                selected = [p for p in props if p == meta["property"] or p in meta.get("also_run", [])]
+            elif "--own" in sys.argv:
                 # regression after a harness change: only the check of the property the change breaks
                 selected = [p for p in props if p == meta["property"] and p not in ("C01", "C17", "C18", "C19")]
             elif "--fast" in sys.argv:
